@@ -30,8 +30,10 @@ variants() {
     C02:*|C03:*|C04:*|C05:*|C06:*|C07:*|C15:*|C19:*) echo "seq" ;;
     C08:quick|C09:quick)       echo "seq race:conc" ;;
     C08:thorough|C09:thorough) echo "seq race:conc race:conc:gmp2 conc:gmp4" ;;
-    C11:quick|C17:quick|C20:quick) echo "race" ;;
-    C11:thorough|C17:thorough|C20:thorough) echo "race race:atc0 norace:gmp4 race:gmp2" ;;
+    C11:quick)    echo "race aim" ;;      # aim: only the timer-expiry aiming sweep, uninstrumented so that it reaches ~10^6 cycles
+    C11:thorough) echo "race aim race:atc0 norace:gmp4 race:gmp2" ;;
+    C17:quick|C20:quick) echo "race" ;;
+    C17:thorough|C20:thorough) echo "race race:atc0 norace:gmp4 race:gmp2" ;;
     C13:quick) echo "race race:gmp3" ;;   # gmp3: GOMAXPROCS below the CPU count (what 'parallelism <= 0' must follow)
     *:quick)       echo "race" ;;
     *:thorough)    echo "race norace race:gmp2 norace:gmp4 race:gmp1" ;;
